@@ -1221,6 +1221,14 @@ class SymEval:
         return None
 
     def option_call(self, path, args):
+        if path and path.startswith("std::option::Option::<std::result::Result<") and path.endswith("::transpose") and len(args) == 1:
+            # Option<Result<T,E>>::transpose: Some(Ok(x)) -> Ok(Some(x)), Some(Err(e)) -> Err(e), None -> Ok(None)
+            o = args[0]
+            if isinstance(o, tuple) and len(o) == 3 and o[0] == "opt" and isinstance(o[2], Poly):
+                r = o[2]
+                inner = build_match(r, [(self.OK_KEY, ("ctor", "Ok", [("ctor", "Some", [app("payload0", r)])])), (self.ERR_KEY, ("ctor", "Err", [app("payload0", r)]))])
+                return build_match(o[1], [(self.SOME_KEY, inner), (repr("None"), ("ctor", "Ok", [("variant", "None")]))])
+            return None
         if path and path.startswith("std::result::Result::<") and args:
             return self.result_call(path, args)
         if not path or not path.startswith("std::option::Option::<") or not args:
